@@ -10,7 +10,7 @@ import ast
 from .. import AnalysisError, AnchorMissing
 from ..cfg import cfg_of
 from ..model import own_nodes
-from ..values import pattern, match, find, contains, show, subterms
+from ..values import pattern, match, match_any, find, contains, show, subterms
 from .base import obligation, src, callee_name
 from .C04 import pattern_term, returns, enclosing_loop, _inside
 
@@ -272,7 +272,12 @@ def c02_c(ctx):
                       'sort_order = nx_constant_topological_sort(G)',
                       'sort_order is {}'.format(show(v)[:100]), fn=eo, node=s)
             continue
-        okk = match(kt, pattern('tuple(sorted(_))')) is not None
+        def _normalised(k):
+            if match(k, pattern('tuple(sorted(_))')) is not None or \
+                    match(k, pattern('frozenset(_)')) is not None:
+                return True
+            return k[0] == 'tuple' and bool(k[1]) and all(_normalised(x) for x in k[1])
+        okk = _normalised(kt)
         ctx.check(okk, eo, 'cache key sorted', 'key = tuple(sorted(...))',
                   'cache key {} is not order-normalised'.format(show(kt)[:100]), fn=eo, node=s)
         v = ex2.term(s.value)
@@ -570,3 +575,141 @@ def c02_g(ctx):
     ok = 'cache' in dflt and isinstance(dflt['cache'], ast.Constant) and dflt['cache'].value is None
     ctx.check(ok, gsf, 'no shared default cache', 'cache=None', 'get_sub_seed has a mutable default '
               'cache shared by all callers', fn=gsf, node=gsf.node)
+
+
+
+@obligation('C02-h', 'T8 T10', 'the execution-order cache key holds everything the cached order '
+            'depends on: the requested operations and the set of nodes whose output is given',
+            floor=3,
+            necessary='with a key that omits the given nodes, a batch computed from the prior '
+                      'followed by a batch with given values re-uses the first order and runs the '
+                      'stochastic ancestors of the given nodes: the result depends on what was '
+                      'computed earlier in the process (and on the client, which may or may not '
+                      'share the cache)')
+def c02_h(ctx):
+    eo = ctx.fn('elfi.executor:Executor.get_execution_order')
+    ex = ctx.ex(eo)
+    # every store that lands (directly or through a nested dict) in the executor cache
+    def key_path(t):
+        """subscript keys from the cache root down to the stored slot, or None"""
+        path = []
+        while True:
+            if t[0] == 'sub':
+                path.append(t[2])
+                t = t[1]
+            elif t[0] == 'call' and t[1][0] == 'attr' and t[1][2] in ('setdefault', 'get') and \
+                    t[2]:
+                if t[1][2] == 'get' and t[2][0] == ('const', '_executor_cache'):
+                    return list(reversed(path))
+                path.append(t[2][0])
+                t = t[1][1]
+            elif t[0] == 'phi':
+                t = t[1][0]
+            else:
+                break
+        return list(reversed(path)) if contains(t, "'_executor_cache'") or \
+            t == ('const', '_executor_cache') else None
+    keyed = []
+    for n_ in own_nodes(eo.node):
+        if isinstance(n_, ast.Assign) and isinstance(n_.targets[0], ast.Subscript):
+            tt = ex.term(n_.targets[0])
+            if not any(x == ('const', '_executor_cache') for x in subterms(tt)):
+                continue
+            kp = key_path(tt)
+            if kp is None:
+                continue
+            v = ex.term(n_.value)
+            if match(v, pattern('nx_constant_topological_sort(G)')) is not None:
+                continue            # a pure function of the graph structure
+            keyed.append((n_, n_.targets[0], kp))
+    # which per-node attributes decide the order on a cache miss?  (tests that guard a change of
+    # the dependency graph, not the validation tests that only raise)
+    deciding = set()
+    for c in ctx.calls(eo, name='remove_node') + ctx.calls(eo, name='remove_nodes_from'):
+        for (t, pol, _) in ctx.guards(eo, c):
+            m = match(t, pattern('_a in G.nodes[_n]'))
+            if pol and m is not None and m['a'][0] == 'const':
+                deciding.add(m['a'][1])
+    ctx.check(bool(deciding), eo, 'pruning reads the presence of an attribute',
+              sorted(deciding), 'no attribute test guards the pruning of the dependency graph',
+              fn=eo, node=eo.node)
+    for (s, t, kp) in keyed:
+        kt = ('tuple', tuple(kp))
+        for a in sorted(deciding):
+            # the key must contain the collection of *all* nodes of G that carry the attribute
+            want = False
+            for sub in subterms(kt):
+                if sub[0] == 'comp':
+                    gens = sub[3]
+                    if len(gens) == 1 and match_any(gens[0][0], ('G.nodes', 'G.nodes()', 'G',
+                                                                 'sorted(G.nodes)',
+                                                                 'G.nodes(data=True)')) \
+                            is not None and \
+                            any(match(c_, pattern("'{}' in G.nodes[_n]".format(a))) is not None
+                                for c_ in gens[0][1]):
+                        want = True
+            ctx.check(want, eo, "key covers the nodes with '{}' present".format(a),
+                      "key includes [n for n in G.nodes if '{}' in G.nodes[n]]".format(a),
+                      "the cached order depends on which nodes have '{}' present (they are cut "
+                      'out of the dependency graph) but the cache key {} does not: an order '
+                      'computed for one batch is re-used for a batch with other given nodes'
+                      .format(a, show(kt)[:60]), fn=eo, node=s)
+        # the looked-up key is the stored key
+        reads = [n for n in own_nodes(eo.node) if isinstance(n, ast.Return) and n.value is not None
+                 and isinstance(n.value, ast.Subscript)]
+        okr = bool(reads) and all(ex.term(r.value.slice) == ex.term(t.slice) for r in reads
+                                  if contains(ex.term(r.value.value), "'_executor_cache'") and
+                                  len(kp) == 1)
+        ctx.check(okr, eo, 'lookup and store use the same key', '', 'the order is looked up under '
+                  'another key than it is stored under', fn=eo, node=reads[0] if reads else s)
+
+
+@obligation('C02-i', 'T10 T1', 'inside the library a context on the global generator is created '
+            'only where the caller\'s generator is installed before anything is computed', floor=2,
+            necessary='a library-internal computation on seed=\'global\' draws from (and advances) '
+                      'numpy\'s global generator: a seeded sampler that evaluates the joint prior '
+                      'then depends on the state of np.random')
+def c02_i(ctx):
+    n = 0
+    for m in ctx.repo.modules.values():
+        if not m.name.startswith('elfi.') or m.name.startswith('elfi.examples'):
+            continue
+        fns = list(m.functions.values())
+        for c in m.classes.values():
+            fns += list(c.methods.values())
+        for f in fns:
+            cs = ctx.calls(f, 'ComputationContext(*_)')
+            if not cs:
+                continue
+            ex = ctx.ex(f)
+            for c in cs:
+                kw = dict((k.arg, ex.term(k.value)) for k in c.keywords)
+                seed = kw.get('seed') if 'seed' in kw else (
+                    ex.term(c.args[1]) if len(c.args) > 1 else None)
+                n += 1
+                if seed is None:
+                    # default seed: the constructor draws one - acceptable only when the caller
+                    # could have passed one (a parameter named seed is forwarded elsewhere)
+                    ctx.ok(f, 'context without explicit seed', src(c)[:60], fn=f, node=c)
+                    continue
+                if seed != ('const', 'global'):
+                    ok = seed[0] == 'const' and isinstance(seed[1], int) or seed[0] != 'const'
+                    ctx.check(ok, f, 'context seed is an integer or passed in', show(seed)[:40],
+                              'context created with the constant seed {}'.format(show(seed)),
+                              fn=f, node=c)
+                    continue
+                # seed='global': the caller's generator must replace the loaded one before compute
+                comp = ctx.calls(f, name='compute')
+                inst = [s for s in own_nodes(f.node)
+                        if isinstance(s, (ast.Expr, ast.Assign)) and
+                        contains(ex.term(s.value), "_.nodes['_random_state']") and
+                        any(('param', p) in set(subterms(ex.term(s.value)))
+                            for p in f.all_params if p != f.self_name)]
+                ok = bool(comp) and bool(inst) and all(ctx.must_precede(f, inst, x) for x in comp)
+                ctx.check(ok, f, 'global context: caller\'s generator installed before compute',
+                          "nodes['_random_state'] <- random_state, then compute",
+                          '{} computes on a context with seed=\'global\' without installing a '
+                          'generator handed in by the caller: it draws from numpy\'s global '
+                          'generator'.format(f.name), fn=f, node=c)
+    if n < 2:
+        ctx.undecided('expected at least two library-internal contexts, found {}'.format(n))
